@@ -1159,6 +1159,8 @@ def _on_line(code, line):
         fn = code.co_filename
         if fn.startswith(_line_prefixes) and not fn.endswith(_line_exclude):
             info = (os.path.basename(fn), code.co_name)
+            if info[0] in _instr_files:
+                sys.monitoring.set_local_events(TOOL_ID, code, sys.monitoring.events.INSTRUCTION)
         else:
             info = False
         _code_cache[code] = info
@@ -1203,6 +1205,40 @@ def _on_jump(code, offset, dest):
     return None
 
 
+INSTR_POINTS = [()]  # per-case switch (progs.run_case: case["instr_points"] = [file basenames]): in these files of the library
+#                      every bytecode instruction is a scheduling point (a read-modify-write written on ONE source line can then be split)
+_instr_files = set()  # files for which INSTRUCTION events have been switched on in this process (they stay on; the callback filters)
+
+
+def enable_instr_points(files):
+    files = tuple(sorted(files or ()))
+    INSTR_POINTS[0] = files
+    new = set(files) - _instr_files
+    if not new:
+        return
+    _instr_files.update(new)
+    mon = sys.monitoring
+    for code, info in list(_code_cache.items()):
+        if info and info[0] in new:
+            try:
+                mon.set_local_events(TOOL_ID, code, mon.events.INSTRUCTION)
+            except Exception:
+                pass
+
+
+def _on_instruction(code, offset):
+    info = _code_cache.get(code)
+    if not info or info[0] not in INSTR_POINTS[0]:
+        return None
+    s = CURRENT
+    if s is None:
+        return None
+    vt = s.by_ident.get(_get_ident())
+    if vt is not None and s.line_points and s.cur is vt:
+        s.point()
+    return None
+
+
 def install_monitor(prefixes):
     global _line_prefixes, _monitor_installed
     _line_prefixes = tuple(prefixes)
@@ -1212,6 +1248,7 @@ def install_monitor(prefixes):
     mon.use_tool_id(TOOL_ID, "vsched")
     mon.register_callback(TOOL_ID, mon.events.LINE, _on_line)
     mon.register_callback(TOOL_ID, mon.events.JUMP, _on_jump)
+    mon.register_callback(TOOL_ID, mon.events.INSTRUCTION, _on_instruction)
     mon.set_events(TOOL_ID, mon.events.LINE | mon.events.JUMP)
     _monitor_installed = True
     import atexit
